@@ -354,7 +354,8 @@ async def run_worker(loop, sc: dict, make=None, projector=inmem_projector, signa
     info = {"run_steps": state["run_steps"], "run_exc": run_exc, "stopped": state["stopped"], "forced": state["forced"],
             "exec_log": rec.exec_log, "exec_count": {rec_id: n for rec_id, n in rec.exec_count.items()},
             "store_calls": store_calls, "results": results, "ids": dict(rec.ids), "late": late,
-            "end_us": CLOCK.us}
+            "end_us": CLOCK.us,
+            "event_steps": sorted(x - state["steps0"] for x in rec.event_steps if x >= state["steps0"])}
     return rec, info
 
 
